@@ -120,9 +120,11 @@ def makeRef (nodes : List RNode) : Nat → RState → Nat → RState × Except S
           else if n.kind == "constant" then
             -- `toidentifier(value)` itself may raise (e.g. ValueError for a Python float NaN): the harness
             -- passes `!<exception>` instead of the identifier
-            if n.text.startsWith "!" then (s, .error (n.text.drop 1).toString) else
-            let r := "constant_" ++ n.text
-            if r.length < 50 then (s, .ok r) else (s, .error "AssertionError")
+            match n.text.toList with
+            | '!' :: exc => (s, .error (String.ofList exc))
+            | _ =>
+              let r := "constant_" ++ n.text
+              if r.length < 50 then (s, .ok r) else (s, .error "AssertionError")
           else if n.kind == "absolute" then
             match n.operands with
             | o :: _ =>
